@@ -8,7 +8,7 @@
    a pthread recursive mutex can be taken iff no other thread is between lock and unlock
    ([mutex_free]); memory is sequentially consistent (the code's write barrier / read barrier
    pair is not modelled); Py_InitializeEx, the module init function and the init code are
-   single steps. *)
+   single steps; the GIL is handed over fairly between threads that run Python. *)
 From Coq Require Import Arith List Bool.
 Import ListNotations.
 From Cffi Require Import C28.Gen C28.Model C28.Proofs C28.Proofs2 C28.Proofs3 C28.Proofs4.
@@ -62,14 +62,14 @@ Theorem C28_failed_init_never_runs_extern : forall n sched l t c t',
   let s := run n sched in
   ist (libs s l) = DoneFail ->
   In (l, PInPy) (stacks (step s (t, c)) t') -> In (l, PInPy) (stacks s t').
-Proof. exact failed_init_never_runs_extern. Qed.
+Proof. exact failed_init_never_runs_extern_step. Qed.
 Print Assumptions C28_failed_init_never_runs_extern.
 
 Theorem C28_failed_init_returns_zero : forall n sched l t c rest,
   let s := run n sched in
   ist (libs s l) = DoneFail -> (t <? nthr s) = true -> stacks s t = (l, PRet) :: rest ->
   stacks (step s (t, c)) t = rest /\ zeros (step s (t, c)) l = S (zeros s l).
-Proof. exact failed_init_returns_zero. Qed.
+Proof. exact failed_init_returns_zero_step. Qed.
 Print Assumptions C28_failed_init_returns_zero.
 
 (* "every call terminates", one library: in every reachable state in which a call is in
@@ -82,6 +82,25 @@ Theorem C28_no_deadlock_one_library : forall n sched l0,
 Proof. exact no_deadlock_one_library. Qed.
 Print Assumptions C28_no_deadlock_one_library.
 
+(* The GIL.  A thread that returns from _cffi_initialize_python without PyGILState_Release keeps
+   the GIL for ever ([gil s = Some t]) and every later PyGILState_Ensure of another thread (entry of
+   _cffi_initialize_python of ANY library, entry of any extern function) blocks.  Whether the two
+   exits release is the regenerated fact Gen.gen_init_exits (every return path of the function
+   after PyGILState_Ensure is followed back to the labels it passes).  With the code as it is
+   nobody ever keeps the GIL, whatever the schedule and the init outcomes: *)
+Theorem C28_gil_never_kept : forall n sched, gil (run n sched) = None.
+Proof. exact gil_never_kept. Qed.
+Print Assumptions C28_gil_never_kept.
+
+(* ... hence no deadlock for any number of libraries that do not call into each other (each
+   thread's nested calls stay inside one library), e.g. library A's init fails in one thread and
+   another thread then makes its first call into library B *)
+Theorem C28_no_deadlock_independent_libraries : forall n sched,
+  let s := run n sched in
+  independent s -> (exists t, busy s t = true) -> exists t, t < nthr s /\ enabled s t.
+Proof. exact no_deadlock_independent. Qed.
+Print Assumptions C28_no_deadlock_independent_libraries.
+
 (* Termination up to fairness (the pattern of C26_bounded_steps).  [rank] orders the program points
    of a call (PCall = 18 ... PInPy = 1).  Every step of thread t leaves its stack unchanged (it is
    blocked, idle or past nthr), or starts a nested call (only from the user's init code, an extern
@@ -92,7 +111,7 @@ Print Assumptions C28_no_deadlock_one_library.
    to somebody) every call to a single library terminates under a weakly fair scheduler and
    terminating user code — those two are the hypotheses that are not formalised. *)
 Theorem C28_bounded_steps : forall s t c, effect (stacks s t) (stacks (step s (t, c)) t).
-Proof. exact bounded_steps. Qed.
+Proof. exact bounded_steps_step. Qed.
 Print Assumptions C28_bounded_steps.
 
 (* ... and after a failed initialization a call of that library stays on the plain path (never
@@ -106,7 +125,7 @@ Theorem C28_failed_call_progress : forall n sched l t c p rest,
   stacks s' t = stacks s t \/
   (exists p', stacks s' t = (l, p') :: rest /\ rank p' < rank p /\ plainpc p' = true) \/
   (p = PRet /\ stacks s' t = rest /\ zeros s' l = S (zeros s l)).
-Proof. exact failed_call_progress. Qed.
+Proof. exact failed_call_progress_step. Qed.
 Print Assumptions C28_failed_call_progress.
 
 (* ... and the clause is FALSE for two libraries whose init codes call into each other: after
@@ -116,7 +135,7 @@ Print Assumptions C28_failed_call_progress.
 Theorem C28_two_libraries_deadlock_refuted :
   let s := run 2 deadlock_schedule in
   busy s 0 = true /\ busy s 1 = true /\ forall t c, step s (t, c) = s.
-Proof. exact two_libraries_deadlock. Qed.
+Proof. exact two_libraries_deadlock_step. Qed.
 Print Assumptions C28_two_libraries_deadlock_refuted.
 
 (* non-vacuity: three threads race for one library whose init code fails; one initializes
